@@ -38,9 +38,13 @@
    BROKEN-IN-CXX marks specialisations that do not compile when instantiated; they are modelled as documented.
    Not expressible / not modelled: solve/inverse optimizers (solve.hpp).
    Ambiguity: matrix_vector_prod_optimizer<X, vector_scalar_multiply<V>> for X in {matrix_matrix_prod,
-   matrix_addition, outer_product, vector_repeater, diagonal_matrix} matches two partial specialisations
-   neither of which is more specialised: the C++ does not compile (checked: prod(A+B, 2*x)); the model
-   resolves it in favour of <M,vector_scalar_multiply<V>>.  Same for matrix_matrix_prod_optimizer: none. *)
+   matrix_addition, outer_product, vector_repeater, diagonal_matrix} matched two partial specialisations
+   neither of which is more specialised; six specialisations were added to the C++ that resolve it in favour of
+   <M,vector_scalar_multiply<V>>, as the model always did.
+   STATUS after the `fix:` commits of /repo recorded in /verif/known_findings.json (property C01): every
+   DEFECT-IN-CXX / BROKEN-IN-CXX marker below describes the code BEFORE the repair, the repaired code is the
+   fx = true table, with ONE exception that is still as coded: matrix_range_optimizer<diagonal_matrix>
+   (known finding C01-RANGEDIAG). *)
 From Coq Require Import ZArith List Bool Arith Lia.
 From SharkV Require Import C01Model.
 Open Scope Z_scope.
@@ -342,6 +346,15 @@ with opt_mvprod (fuel : nat) (m : mexp) (v : vexp) {struct fuel} : vexp :=
     (* ARM matrix_vector_prod_optimizer matrix_scalar_multiply<_>,_ *)
     | MScale c1 m1, _ => opt_vscale f c1 (opt_mvprod f m1 v)
     (* ARM matrix_vector_prod_optimizer _,vector_scalar_multiply<_> *)
+    (* the following six specialisations were added to the C++ (fix commits 2559fbc0, bdcc2ef1) to resolve the
+       ambiguity between <X,V> and <M,vector_scalar_multiply<V>>; each is  alpha * (X-rule applied to the unscaled
+       vector), i.e. exactly this arm followed by the X arm of the recursive call: *)
+    (* ARM matrix_vector_prod_optimizer matrix_matrix_prod<_,_>,vector_scalar_multiply<_> *)
+    (* ARM matrix_vector_prod_optimizer matrix_addition<_,_>,vector_scalar_multiply<_> *)
+    (* ARM matrix_vector_prod_optimizer outer_product<_,_>,vector_scalar_multiply<_> *)
+    (* ARM matrix_vector_prod_optimizer vector_repeater<_,row_major>,vector_scalar_multiply<_> *)
+    (* ARM matrix_vector_prod_optimizer vector_repeater<_,column_major>,vector_scalar_multiply<_> *)
+    (* ARM matrix_vector_prod_optimizer diagonal_matrix<_>,vector_scalar_multiply<_> *)
     | _, VScale c2 v1 => opt_vscale f c2 (opt_mvprod f m v1)
     (* ARM matrix_vector_prod_optimizer matrix_matrix_prod<_,_>,_ *)
     | MProd alpha m1 m2, _ => opt_vscale f alpha (opt_mvprod f m1 (opt_mvprod f m2 v))
